@@ -37,6 +37,22 @@ FIXED = [
 ]
 
 
+# ALRM makes a waiting message due, and TERM arrives before the (saturated) channel has picked it up: the restarted daemon tries it at once.
+# The stop before that one has stamped the FUTURE retry time on the file, so a stop that does not write the pulled-forward time shows
+# (added after seeded change C15-I)
+def two_stops(addr0, addr1, key, extra_plan=()):
+    sc = fx([{"sender": "s@rem.example", "rcpts": [addr0], "body": "x\n"}, {"sender": "t@rem.example", "rcpts": [addr1], "body": "y\n"}],
+            {"0:0": "ZZZK", "1:0": "ZZZK"}, [], ["answer", "inject", "advance", "alrm", "term"], {key: "1\n"})
+    sc["plan"] = ["inject", "inject", "answer", "answer", "term"] + list(extra_plan) + ["alrm", "term", "answer"]
+    sc["term_max"] = 2
+    return sc
+
+
+FIXED += [two_stops("r@rem.example", "q@rem.example", "concurrencyremote"), two_stops("joe@loc.example", "ann@loc.example", "concurrencylocal"),
+          two_stops("r@rem.example", "q@rem.example", "concurrencyremote", ["advance_part:150"]),
+          two_stops("joe@loc.example", "ann@loc.example", "concurrencylocal", ["advance_part:30"])]
+
+
 def run(ctx):
     try:
         arith = importlib.import_module("props.c15_arith")
